@@ -34,7 +34,7 @@ prop("C02", NEC + "Clauses: token-range to text-range conversions unwrap first()
      "predefined entries have the empty range); the process is terminated only at the three sanctioned places.",
      [{"rule": "EMPTY-RANGE-GUARD", "floor": 2}, {"rule": "LOOKUP-NOPANIC", "floor": 14},
       {"rule": "ENTRY-GUARD", "floor": 6}, {"rule": "WHO-MAY", "filter": tag("exit"), "floor": 5},
-      {"rule": "TOKEN-RANGE-SOURCE", "floor": 38}])
+      {"rule": "TOKEN-RANGE-SOURCE", "floor": 38}, {"rule": "INDEX-ELEM", "floor": 30}])
 
 prop("C03", NEC + "Clauses: each of the 27 build/semantic message kinds has an emitting site under table::* and its own "
      "text (VARIANTS); every error is attached in the reference frame of the node that owns it and is shifted exactly "
@@ -46,9 +46,11 @@ prop("C03", NEC + "Clauses: each of the 27 build/semantic message kinds has an e
 
 prop("C04", NEC + "Clauses: shape of the precedence-climbing parser (levels, loops, operand parsers, else binding) "
      "and agreement of parser levels with the operator classification used by the type checker (T5); raw token "
-     "consumption only inside the comment-skipping token parsers.",
+     "consumption only inside the comment-skipping token parsers; doc comments are consumed inside the node's info(..) range "
+     "(DOC-IN-RANGE); a rebuilt Reference carries the sum of the offsets it unwraps (FRAME S-ref in parser.rs / parser/utility.rs).",
      [{"rule": "PARSE-SHAPE", "floor": 18}, {"rule": "TABLES", "filter": tag("T5"), "floor": 23},
-      {"rule": "NOCONSUME", "filter": tag("take"), "floor": 37}])
+      {"rule": "NOCONSUME", "filter": tag("take"), "floor": 37}, {"rule": "DOC-IN-RANGE", "floor": 5},
+      {"rule": "FRAME", "filter": files("parser.rs", "utility.rs"), "floor": 3}])
 
 prop("C05", NEC + "Clauses: the five synchronisation sets are nested and all contain proc/type/eof, each error "
      "variant recovers with its own set (SYNC-SETS); failed token parsers and expect() hand back the original "
@@ -70,29 +72,30 @@ prop("C07", NEC + "Clauses: a token relocated to a new range relocates its lexic
 prop("C08", NEC + "Clauses: no content change is discarded, batched changes are converted against the advanced "
      "temporary text and applied to it, LSP columns advance by UTF-16 code units; lengths of different units are not mixed; "
      "client positions are interpreted only by get_insertion_index and positions sent out come only from as_position (POS-CONV).",
-     [{"rule": "TEXT-SYNC", "floor": 6}, {"rule": "LEN-UNITS", "floor": 3}, {"rule": "POS-CONV", "floor": 22}])
+     [{"rule": "TEXT-SYNC", "floor": 7}, {"rule": "LEN-UNITS", "floor": 3}, {"rule": "POS-CONV", "floor": 22}])
 
 prop("C09", NEC + "Clauses: operators are re-printed as the lexeme they were lexed from (T4); every Format impl prints "
      "every child that holds an identifier, literal or operator and every Error variant (TRAVERSE); every token slice "
      "handed down is re-based exactly when a Reference is crossed (FRAME in formatting.rs); the edit covers the whole "
-     "document (FMT-PURE).",
+     "document (FMT-PURE); character literals are printed only with escapes the lexer knows (CHAR-ESCAPES).",
      [{"rule": "TABLES", "filter": tag("T4"), "floor": 20}, {"rule": "TRAVERSE", "filter": tag("format"), "floor": 43},
-      {"rule": "FRAME", "filter": files("formatting.rs"), "floor": 63}, {"rule": "FMT-PURE", "floor": 4}])
+      {"rule": "FRAME", "filter": files("formatting.rs"), "floor": 63}, {"rule": "FMT-PURE", "floor": 5},
+      {"rule": "CHAR-ESCAPES", "floor": 2}])
 
 prop("C10", NEC + "Clause: a composite node whose parser skips comments in front of several own tokens must re-attach all "
      "comments of its slice (COMMENT-PAIRING). Six composite Format impls violate it on the pinned tree (known findings).",
-     [{"rule": "COMMENT-PAIRING", "floor": 21}])
+     [{"rule": "COMMENT-PAIRING", "floor": 21}, {"rule": "DOC-IN-RANGE", "floor": 5}])
 
 prop("C11", NEC + "Clauses: the printer does not read byte positions (output is a function of tree and token kinds), the "
      "indentation unit follows insertSpaces/tabSize, null is returned exactly on equality.",
-     [{"rule": "FMT-PURE", "floor": 4}])
+     [{"rule": "FMT-PURE", "floor": 5}])
 
 prop("C12", NEC + "Clauses: an entry's name range is resolved against the token slice cut with that same entry's range "
      "(FRAME S7 in goto.rs / features.rs); inside a procedure the identifier is resolved local-then-global through a "
      "LookupTable built from that procedure (SCOPE-ORDER); locations only for user declarations (ENTRY-GUARD) and "
      "is_default() never holds for locals (ENTRY-KIND); lookups are never unwrapped (LOOKUP-NOPANIC).",
      [{"rule": "FRAME", "filter": files("goto.rs", "features.rs", "table.rs"), "floor": 16},
-      {"rule": "SCOPE-ORDER", "floor": 17}, {"rule": "ENTRY-GUARD", "floor": 6}, {"rule": "ENTRY-KIND", "floor": 4},
+      {"rule": "SCOPE-ORDER", "floor": 18}, {"rule": "ENTRY-GUARD", "floor": 6}, {"rule": "ENTRY-KIND", "floor": 4},
       {"rule": "LOOKUP-NOPANIC", "floor": 14}])
 
 prop("C13", NEC + "Clauses: the finder walkers descend into every statement/expression/type shape that can contain what "
@@ -101,13 +104,13 @@ prop("C13", NEC + "Clauses: the finder walkers descend into every statement/expr
      "(SCOPE-ORDER).",
      [{"rule": "TRAVERSE", "filter": tag("vars", "calls", "types"), "floor": 51},
       {"rule": "FRAME", "filter": files("references.rs"), "floor": 56}, {"rule": "SAME-FINDER", "floor": 3},
-      {"rule": "SCOPE-ORDER", "floor": 17}])
+      {"rule": "SCOPE-ORDER", "floor": 18}])
 
 prop("C14", NEC + "Clauses: the call statement is located with node, origin and token slice in one frame on every step of "
      "the descent (FRAME in signature_help.rs) through every statement shape that can contain a call (TRAVERSE); hover "
      "resolves local-then-global (SCOPE-ORDER).",
      [{"rule": "FRAME", "filter": files("signature_help.rs"), "floor": 8},
-      {"rule": "TRAVERSE", "filter": tag("calls"), "floor": 18}, {"rule": "SCOPE-ORDER", "floor": 17}])
+      {"rule": "TRAVERSE", "filter": tag("calls"), "floor": 18}, {"rule": "SCOPE-ORDER", "floor": 18}])
 
 prop("C15", NEC + "Clauses: legend order = enum discriminants (T6); token positions of different units/frames are not "
      "compared and declaration slices are cut in the right frame (FRAME in semantic_tokens.rs); token lengths are UTF-16 "
@@ -117,7 +120,7 @@ prop("C15", NEC + "Clauses: legend order = enum discriminants (T6); token positi
 
 prop("C16", NEC + "Clauses: every token slice / node pair that drives the position classification is in one frame (FRAME "
      "in completion.rs); variables are proposed from the LookupTable of the procedure that contains the cursor (SCOPE-ORDER).",
-     [{"rule": "FRAME", "filter": files("completion.rs"), "floor": 18}, {"rule": "SCOPE-ORDER", "floor": 17}])
+     [{"rule": "FRAME", "filter": files("completion.rs"), "floor": 18}, {"rule": "SCOPE-ORDER", "floor": 18}])
 
 prop("C17", NEC + "Clause: the procedure's token range is made absolute with the offset of the Reference it was reached "
      "through before the token vector is sliced (FRAME in fold.rs); the lines reported come from as_pos_range of the "
@@ -128,7 +131,7 @@ prop("C18", NEC + "Clauses: every path through every Request arm of the three ph
      "turns the PreparedResponse into exactly one Response and sends it; phase x situation -> error code table; "
      "exit handling per phase; senders released before the tasks are joined; end of input falls through to Ok(()); "
      "responses can only be built from the request's PreparedResponse; JSON-RPC error code numbers.",
-     [{"rule": "LIFECYCLE", "floor": 57}, {"rule": "WHO-MAY", "floor": 13}, {"rule": "TABLES-ERRCODE", "floor": 3},
+     [{"rule": "LIFECYCLE", "floor": 57}, {"rule": "WHO-MAY", "floor": 14}, {"rule": "TABLES-ERRCODE", "floor": 3},
       {"rule": "SEND-AWAIT", "floor": 11}])
 
 prop("C19", NEC + "Clauses: decode consumes nothing before its last `Ok(None)`, slices the body only behind the "
